@@ -1,5 +1,6 @@
 import KrillModel.Drivers.Queue
 import KrillModel.Drivers.Fault
+import KrillModel.Drivers.Conc
 import KrillModel.Drivers.Http
 import KrillModel.Drivers.Pubd
 import KrillModel.Drivers.AggStore
@@ -13,6 +14,7 @@ def main (args : List String) : IO UInt32 := do
   match args with
   | ["queue"] => KM.Drv.Queue.main; return 0
   | ["fault"] => KM.Drv.Fault.main; return 0
+  | ["conc"] => KM.Drv.Conc.main; return 0
   | ["http"] => KM.Drv.Http.main; return 0
   | ["pubd"] => KM.Drv.Pubd.main ""; return 0
   | ["pubd", prop] => KM.Drv.Pubd.main prop; return 0
